@@ -10,6 +10,7 @@ import (
 	"context"
 	"errors"
 	"fmt"
+	"io/ioutil"
 	"os"
 	"reflect"
 	"testing"
@@ -280,6 +281,15 @@ func c17Build(ctx context.Context, c *c17Case, written *[][]interface{}, endc *i
 	return nil, nil, fmt.Errorf("unknown kind %q", c.Kind)
 }
 
+func c17Leftover(dir string) []string {
+	out := []string{}
+	es, _ := ioutil.ReadDir(dir)
+	for _, e := range es {
+		out = append(out, e.Name())
+	}
+	return out
+}
+
 func errName(err error) string {
 	switch {
 	case err == nil:
@@ -319,7 +329,20 @@ func c17Run(ctx context.Context, c *c17Case) (rec vtr.Rec) {
 		rec["retained"] = [][]interface{}{}
 		return
 	}
+	var tmpd string
+	if c.Kind == "sort" || c.Kind == "cogroup" {
+		tmpd, _ = ioutil.TempDir("", "verifc10")
+		os.Setenv("TMPDIR", tmpd)
+		defer func() {
+			os.Unsetenv("TMPDIR")
+			os.RemoveAll(tmpd)
+		}()
+	}
 	r, typ, err := c17Build(ctx, c, &written, &endc)
+	if c.Kind == "sort" {
+		// SortReader does all its spilling inside the constructor: nothing may be left behind
+		rec["leftover"] = c17Leftover(tmpd)
+	}
 	if err != nil {
 		rec["builderr"] = errName(err)
 		rec["reads"] = []interface{}{}
@@ -363,6 +386,9 @@ func c17Run(ctx context.Context, c *c17Case) (rec vtr.Rec) {
 	}
 	rec["reads"] = reads
 	rec["retained"] = retained
+	if c.Kind == "cogroup" {
+		rec["leftover"] = c17Leftover(tmpd)
+	}
 	if c.Kind == "writerfunc" {
 		if written == nil {
 			written = [][]interface{}{}
